@@ -1,0 +1,223 @@
+//go:build verif
+
+package main
+
+import (
+	"bytes"
+	"encoding/hex"
+	"fmt"
+	"io"
+	"os"
+	"os/exec"
+	"path/filepath"
+	"strings"
+	"syscall"
+	"time"
+	"unsafe"
+)
+
+// Whole console UI sessions with the REAL binary under a pseudo-terminal
+// (property C22, thorough tier).
+//
+//	uibin <hex of an ELF file> <rows> <k> LINE...
+//
+// writes the file to a temporary directory, starts $VERIF_MLTWIST_BIN on it
+// with a pseudo-terminal of <rows> x 120 as standard input, output and error
+// (so that view.Print finds a terminal), types the k script lines (LINE =
+// "x:<hex>" or "-"; each followed by '\n', a short pause after each), then the
+// end-of-file character, and waits for the program to end:
+//
+//	exit:<status> (clean|crash) | killed:<signal> (clean|crash) | timeout (clean|crash) | nopty
+//
+// "crash": the output contains "panic:", "goroutine " or "fatal error".
+// "timeout": the program did not end within 10 seconds after the end of the
+// input (it is killed). "nopty": no pseudo-terminal can be opened here.
+
+const (
+	uibinIoctlTIOCGPTN   = 0x80045430
+	uibinIoctlTIOCSPTLCK = 0x40045431
+	uibinIoctlTIOCSWINSZ = 0x5414
+)
+
+func uibinIoctl(fd uintptr, req uintptr, arg unsafe.Pointer) error {
+	_, _, e := syscall.Syscall(syscall.SYS_IOCTL, fd, req, uintptr(arg))
+	if e != 0 {
+		return e
+	}
+	return nil
+}
+
+// uibinOpenPty opens a pseudo-terminal pair with the given window size.
+func uibinOpenPty(rows, cols int) (master, slave *os.File, err error) {
+	master, err = os.OpenFile("/dev/ptmx", os.O_RDWR|syscall.O_NOCTTY, 0)
+	if err != nil {
+		return nil, nil, err
+	}
+	var unlock int32
+	if err = uibinIoctl(master.Fd(), uibinIoctlTIOCSPTLCK, unsafe.Pointer(&unlock)); err != nil {
+		master.Close()
+		return nil, nil, err
+	}
+	var n uint32
+	if err = uibinIoctl(master.Fd(), uibinIoctlTIOCGPTN, unsafe.Pointer(&n)); err != nil {
+		master.Close()
+		return nil, nil, err
+	}
+	slave, err = os.OpenFile(fmt.Sprintf("/dev/pts/%d", n), os.O_RDWR|syscall.O_NOCTTY, 0)
+	if err != nil {
+		master.Close()
+		return nil, nil, err
+	}
+	ws := struct{ rows, cols, x, y uint16 }{uint16(rows), uint16(cols), 0, 0}
+	if err = uibinIoctl(master.Fd(), uibinIoctlTIOCSWINSZ, unsafe.Pointer(&ws)); err != nil {
+		master.Close()
+		slave.Close()
+		return nil, nil, err
+	}
+	return master, slave, nil
+}
+
+func uibinRun(file []byte, rows int, lines []string) string {
+	bin := os.Getenv("VERIF_MLTWIST_BIN")
+	if bin == "" {
+		panic(parseError("VERIF_MLTWIST_BIN is not set"))
+	}
+
+	dir, err := os.MkdirTemp("", "verif-uibin")
+	if err != nil {
+		panic(err)
+	}
+	defer os.RemoveAll(dir)
+	path := filepath.Join(dir, "prog.elf")
+	if err := os.WriteFile(path, file, 0o600); err != nil {
+		panic(err)
+	}
+
+	master, slave, err := uibinOpenPty(rows, 120)
+	if err != nil {
+		return "nopty"
+	}
+	defer master.Close()
+
+	cmd := exec.Command(bin, path)
+	cmd.Stdin, cmd.Stdout, cmd.Stderr = slave, slave, slave
+	cmd.SysProcAttr = &syscall.SysProcAttr{Setsid: true, Setctty: true}
+	if err := cmd.Start(); err != nil {
+		slave.Close()
+		return "nopty"
+	}
+	slave.Close()
+
+	var out bytes.Buffer
+	readDone := make(chan struct{})
+	go func() {
+		// Reading ends with EIO when the last descriptor of the slave is closed.
+		_, _ = io.Copy(&out, master)
+		close(readDone)
+	}()
+
+	waitDone := make(chan error, 1)
+	go func() { waitDone <- cmd.Wait() }()
+
+	ended := false
+	var waitErr error
+	pause := func(d time.Duration) {
+		if ended {
+			return
+		}
+		select {
+		case waitErr = <-waitDone:
+			ended = true
+		case <-time.After(d):
+		}
+	}
+
+	pause(50 * time.Millisecond)
+	for _, l := range lines {
+		if ended {
+			break
+		}
+		_, _ = master.Write([]byte(l + "\n"))
+		pause(15 * time.Millisecond)
+	}
+	// End of file: VEOF at the beginning of a line.
+	for i := 0; i < 3 && !ended; i++ {
+		_, _ = master.Write([]byte{4})
+		pause(100 * time.Millisecond)
+	}
+
+	res := ""
+	if !ended {
+		select {
+		case waitErr = <-waitDone:
+			ended = true
+		case <-time.After(10 * time.Second):
+			_ = cmd.Process.Kill()
+			waitErr = <-waitDone
+			res = "timeout"
+		}
+	}
+	select {
+	case <-readDone:
+	case <-time.After(2 * time.Second):
+	}
+
+	if res == "" {
+		res = "exit:0"
+		if ee, ok := waitErr.(*exec.ExitError); ok {
+			if ws, ok := ee.Sys().(syscall.WaitStatus); ok && ws.Signaled() {
+				res = fmt.Sprintf("killed:%d", int(ws.Signal()))
+			} else {
+				res = fmt.Sprintf("exit:%d", ee.ExitCode())
+			}
+		} else if waitErr != nil {
+			res = "exit:?"
+		}
+	}
+
+	text := out.String()
+	if os.Getenv("VERIF_PANIC_TEXT") != "" && (strings.Contains(text, "panic:") || strings.Contains(text, "fatal error")) {
+		fmt.Fprintf(os.Stderr, "uibin output:\n%s\n", text)
+	}
+	if strings.Contains(text, "panic:") || strings.Contains(text, "goroutine ") || strings.Contains(text, "fatal error") {
+		return res + " crash"
+	}
+	return res + " clean"
+}
+
+func init() {
+	register("uibin", func(t *tokens) string {
+		file := t.hex()
+		rows := t.int()
+		k := t.int()
+		if k < 0 || k > 1000 || rows < 0 || rows > 1000 {
+			panic(parseError("uibin parameters out of the harness range"))
+		}
+		lines := make([]string, k)
+		for i := range lines {
+			tok := t.next()
+			switch {
+			case tok == "-":
+			case strings.HasPrefix(tok, "x:"):
+				bs, err := hex.DecodeString(tok[2:])
+				if err != nil {
+					panic(parseError("bad hex line"))
+				}
+				// the terminal's line buffer holds 4095 bytes; control
+				// characters would be interpreted by the line discipline
+				if len(bs) > 1000 {
+					panic(parseError("script line longer than 1000 bytes"))
+				}
+				for _, c := range bs {
+					if c < 0x20 && c != '\t' || c == 0x7f {
+						panic(parseError("control character in a script line"))
+					}
+				}
+				lines[i] = string(bs)
+			default:
+				panic(parseError("bad script line"))
+			}
+		}
+		return uibinRun(file, rows, lines)
+	})
+}
